@@ -235,6 +235,7 @@ func (ru *Rule) Body(r *rand.Rand) string {
 	var b strings.Builder
 	id := ru.ID
 	fmt.Fprintf(&b, "st(%d)%s", id, ws(r))
+	fmt.Fprintf(&b, "zl = %d%s", id, ws(r)) // every rule uses a local of its own
 	// one rule in four first runs a loop that leaves by break / skips by continue: neither is a return - the
 	// rest of the rule runs, and the rule has a result entry only if it reaches a return of its own
 	switch r.Intn(12) {
@@ -254,10 +255,11 @@ func (ru *Rule) Body(r *rand.Rand) string {
 		fmt.Fprintf(&b, "yloc = xloc + 1%s", ws(r))
 	}
 	if ru.SetStop {
+		lit := []string{"true", "true", "TRUE", "True"}[r.Intn(4)] // boolean literals are case-insensitive
 		if r.Intn(3) == 0 {
-			fmt.Fprintf(&b, "stagh.S.StopTag = true%s", ws(r))
+			fmt.Fprintf(&b, "stagh.S.StopTag = %s%s", lit, ws(r))
 		} else {
-			fmt.Fprintf(&b, "stag.StopTag = true%s", ws(r))
+			fmt.Fprintf(&b, "stag.StopTag = %s%s", lit, ws(r))
 		}
 	}
 	if ru.Fail == FailCustom {
